@@ -72,6 +72,7 @@ type Engine struct {
 	initFail  map[string]string
 	initOK    map[string]bool
 	methCache sync.Map
+	fnInfos   sync.Map
 	LoadTime  time.Duration
 	RepoDir   string
 	Verbose   bool
@@ -315,6 +316,9 @@ func (e *Engine) Explore(h *Harness, workers int) *Result {
 			defer wg.Done()
 			w := newWorker(e, h)
 			defer func() {
+				if os.Getenv("GOSX_CTXSTATS") != "" {
+					fmt.Fprintf(os.Stderr, "[ctx] terms=%d table=%d consts=%d\n", w.C.NumTerms(), w.C.TableSize(), w.C.NumConsts())
+				}
 				w.S.Close()
 				mu.Lock()
 				mergeStats(&res.Solver, &w.S.Stats)
@@ -394,6 +398,8 @@ func mergeStats(dst, src *smt.Stats) {
 	dst.Time += src.Time
 	dst.FallbackDur += src.FallbackDur
 	dst.Restarts += src.Restarts
+	dst.ModelTime += src.ModelTime
+	dst.ModelCalls += src.ModelCalls
 	for k, v := range src.ByBackend {
 		dst.ByBackend[k] += v
 	}
@@ -422,7 +428,7 @@ func newWorker(e *Engine, h *Harness) *W {
 	}
 	// the incremental z3 gets a short cap; undecided queries go to the racing
 	// portfolio (Int translation, cvc5, z3 5.1) with the full budget
-	prim := 3000
+	prim := 1000
 	if h.Thorough {
 		prim = 8000
 	}
@@ -443,6 +449,9 @@ func (w *W) resetPath(pp Pending) {
 	prefix := pp.Prefix
 	w.model, w.modelMemo, w.known = pp.Model, nil, nil
 	w.undoGlobals()
+	if w.C.TableSize() > 200000 {
+		w.C.Prune()
+	}
 	w.prefix, w.pos = prefix, 0
 	w.trace = w.trace[:0]
 	w.pending = nil
